@@ -40,27 +40,26 @@ impl<'a> RegExp<'a> {
         let mut ast = Expression::from(dfa, config);
 
         if config.is_start_anchor_disabled && config.is_end_anchor_disabled {
-            let mut regex = Self::convert_expr_to_regex(&ast, config);
+            // The self-check is only possible if the expression is a valid pattern for the
+            // regex crate, which is not the case e.g. when surrogate pairs are used.
+            if let Some(regex) = Self::convert_expr_to_regex(&ast, config) {
+                if !Self::is_each_test_case_matched_after_rotating_alternations(
+                    &regex, &mut ast, test_cases,
+                ) {
+                    dfa = Dfa::from(&grapheme_clusters, false, config);
+                    ast = Expression::from(dfa, config);
 
-            if config.is_verbose_mode_enabled {
-                // Remove line breaks before checking matches, otherwise check will be incorrect.
-                regex = Regex::new(&regex.to_string().replace('\n', "")).unwrap();
-            }
+                    let is_matching = Self::convert_expr_to_regex(&ast, config)
+                        .is_some_and(|regex| Self::regex_matches_all_test_cases(&regex, test_cases));
 
-            if !Self::is_each_test_case_matched_after_rotating_alternations(
-                &regex, &mut ast, test_cases,
-            ) {
-                dfa = Dfa::from(&grapheme_clusters, false, config);
-                ast = Expression::from(dfa, config);
-                regex = Self::convert_expr_to_regex(&ast, config);
-
-                if !Self::regex_matches_all_test_cases(&regex, test_cases) {
-                    let mut exprs = vec![];
-                    for cluster in grapheme_clusters {
-                        let literal = Expression::new_literal(cluster, config);
-                        exprs.push(literal);
+                    if !is_matching {
+                        let mut exprs = vec![];
+                        for cluster in grapheme_clusters {
+                            let literal = Expression::new_literal(cluster, config);
+                            exprs.push(literal);
+                        }
+                        ast = Expression::new_alternation(exprs, config);
                     }
-                    ast = Expression::new_alternation(exprs, config);
                 }
             }
         }
@@ -85,13 +84,17 @@ impl<'a> RegExp<'a> {
             .collect_vec();
     }
 
-    fn convert_expr_to_regex(expr: &Expression, config: &RegExpConfig) -> Regex {
+    fn convert_expr_to_regex(expr: &Expression, config: &RegExpConfig) -> Option<Regex> {
+        let mut pattern = expr.to_string();
         if config.is_output_colorized {
             let color_replace_regex = Regex::new("\u{1b}\\[(?:\\d+;\\d+|0)m").unwrap();
-            Regex::new(&color_replace_regex.replace_all(&expr.to_string(), "")).unwrap()
-        } else {
-            Regex::new(&expr.to_string()).unwrap()
+            pattern = color_replace_regex.replace_all(&pattern, "").to_string();
         }
+        if config.is_verbose_mode_enabled {
+            // Remove line breaks before checking matches, otherwise check will be incorrect.
+            pattern = pattern.replace('\n', "");
+        }
+        Regex::new(&pattern).ok()
     }
 
     fn regex_matches_all_test_cases(regex: &Regex, test_cases: &[String]) -> bool {
